@@ -316,7 +316,7 @@ def run(chk):
     chk.ob("C16.R4:Template::to_owned", "an owned template is built part by part with Part::to_owned", tpl_to_owned)
 
     common.arg_agreement_rule(chk, P, "C16", [("emit_core", "src/template.rs"), ("emit_macros", "src/template.rs"), ("emit_macros", "src/fmt.rs")], 3)
-    if chk.tier == "thorough":
+    if True:
         from . import corpus
         corpus.template_rules(chk, "C16")
     return chk
